@@ -43,7 +43,7 @@ func c09Pool(chain *vh.Chain) []*vh.Header {
 	}
 }
 
-var c09Kinds = []string{"header", "header", "header", "header", "header", bhNotFound, bhGarbage, bhBadValidate, bhWrongChain, bhHang, bhReset, bhEmpty, bhUnknownCode}
+var c09Kinds = []string{"header", "header", "header", "header", "header", bhNotFound, bhGarbage, bhBadValidate, bhWrongChain, bhNoChain, bhHang, bhReset, bhEmpty, bhUnknownCode}
 
 func genC09(t *rapid.T) C09Scenario {
 	s := C09Scenario{Trusted: rapid.Bool().Draw(t, "trusted"), Deadline: rapid.Bool().Draw(t, "deadline")}
